@@ -21,6 +21,10 @@ RULE = ("operation scripts for a private libdbus client connection (1..4 threads
         "plus multi-blocker scripts: 2..4 threads block (block / send_with_reply_and_block, timeouts none or 20..30 s) on different calls of one "
         "connection, the peer answers all of them in ONE write() in an order of its own and then stays silent - every blocking wait must "
         "return (harness monitor: 5 s after the first one returned; Python kills the harness after 12 s); "
+        "plus reply-then-close scripts: the peer answers k>=1 outstanding calls (all, or some of them) in one write() and closes at once while "
+        "the client is not reading; the harness reads only after it saw hangup and unread bytes pending on the socket (poll/FIONREAD), observes "
+        "through notify / get_completed + steal_reply after dispatching (optionally one blocking wait as first reader) - every answered call "
+        "completes with that reply; "
         "each script runs on an ASan+UBSan build and on a TSan build; the completion log (atomic sequence numbers) is "
         "judged by vf/models/pending_client.py. distinct = per-call (how it completed, cancel relation, observers, "
         "timeout class, what the peer sent, connection lost, threads>1, flavor)")
@@ -196,6 +200,74 @@ def make_mb_case(rng):
             "mb": {"k": k, "watch_ms": MB_WATCH_MS, "timeouts": timeouts, "order": order, "swrb": w_thread}}
 
 
+# Reply-then-close cases.  Timeouts that cannot elapse within a case, so that only the reply or the loss of the
+# connection can complete a call (-1 = libdbus's default, 25 s).
+RC_TIMEOUTS = [INFINITE, -1, 25000, 3600000]
+
+
+def make_rc_case(rng):
+    k = rng.choice([1, 1, 2, 3, 4, 6])
+    unanswered = set()
+    if k >= 2 and rng.random() < 0.3:           # mixed: some calls get no reply before the close
+        unanswered = set(rng.sample(range(k), rng.randint(1, k - 1)))
+    answered = [c for c in range(k) if c not in unanswered]
+    nthreads = 2 if rng.random() < 0.3 else 1
+    order = list(range(k))
+    rng.shuffle(order)
+    pcalls = {}
+    ops = []
+    nflags = {}
+    for c in range(k):
+        pcalls[str(c)] = [] if c in unanswered else [[rng.choice(["ret", "ret", "ret", "err"]), "H", 0, order.index(c)]]
+        nflags[c] = rng.choice([0, 1, 1, 2, 2])
+        ops.append("0S%d,%d,%d" % (c, rng.choice(RC_TIMEOUTS), nflags[c]))
+        if nflags[c] == 0 and rng.random() < 0.3:
+            ops.append("0N%d,%d" % (c, rng.randint(0, 1)))
+        if rng.random() < 0.3:
+            ops.append("0G%d" % c)
+    # the client does not read until the peer's hangup (and with it everything written before) is pending on the socket
+    ops.append("0C10000")
+    # the first read: a raw read, a pump, or a blocking wait on one of the answered calls
+    first = rng.choice(["R", "P", "P", "B"])
+    blocked = None
+    if first == "B":
+        blocked = rng.choice(answered)
+        ops.append("0B%d" % blocked)
+    else:
+        ops.append("0%s0" % first)
+    others = []
+    for c in range(k):
+        for _ in range(rng.randint(0, 2)):
+            others.append("G%d" % c)
+        if rng.random() < 0.5:
+            others.append("T%d" % c)
+    rng.shuffle(others)
+    pumps = []
+    for _ in range(k + rng.choice([0, 2, 4])):     # sometimes too few: the rest is left to the harness's drain loop
+        r = rng.random()
+        pumps.append("P%d" % rng.choice([0, 0, 1]) if r < 0.6 else "D" if r < 0.85 else "R0")
+    main_ops = []
+    side_ops = []
+    while pumps or others:
+        if pumps and (not others or rng.random() < 0.6):
+            main_ops.append("0" + pumps.pop(0))
+        else:
+            o = others.pop(0)
+            if nthreads == 2 and rng.random() < 0.6:
+                side_ops.append("1" + o)
+                if rng.random() < 0.5:
+                    side_ops.append("1Z%d" % rng.choice([50, 200, 1000]))
+            else:
+                main_ops.append("0" + o)
+    if nthreads == 2 and not side_ops:
+        side_ops = ["1Z200", "1G0"]
+    ops += main_ops + side_ops
+    return {"nthreads": nthreads, "ncalls": k, "min_run_ms": 0, "drain_ms": 8000, "est_ms": 300, "peer_ms": 100, "ops": ";".join(ops),
+            "peer": {"calls": pcalls, "hold": k, "hold_delay": rng.choice([0, 0, 5, 20]), "hold_noise": int(rng.random() < 0.25),
+                     "close_after_write": 1, "close": None, "noise": int(rng.random() < 0.3)},
+            "rc": {"k": k, "answered": answered, "unanswered": sorted(unanswered), "first_read": first, "blocked": blocked}}
+
+
 def case_line(case):
     return "%d %d %d %d %s" % (case["nthreads"], case["ncalls"], case["min_run_ms"], case["drain_ms"], case["ops"])
 
@@ -250,6 +322,9 @@ class Script(object):
                 parts.insert(len(parts) // 2, vpeer.signal(pr))
             self.joined = b"".join(parts)
             pr.send_at(self.p.get("hold_delay", 0) / 1000.0, self.joined)
+            if self.p.get("close_after_write"):
+                # reply-then-close: scheduled behind the write (same due time, later sequence number): one write(), then close
+                pr.close_at(self.p.get("hold_delay", 0) / 1000.0, flush=True)
             self.held = []
             # unrelated traffic while the threads wait, before the one write: [count, first_ms, gap_ms]
             mn = self.p.get("mid_noise")
@@ -640,7 +715,7 @@ def judge_case(part, flavor, case, res, status, plog, err, final):
         part.violation("%s:client-sent-invalid-bytes" % PROP, "the peer could not decode what libdbus wrote: %s" % res["protocol_errors"][:2], wit)
     if res.get("ev_overflow"):
         part.inconclusive.append("event log overflow")
-    findings, sigs, cnt = model.judge(res, plog)
+    findings, sigs, cnt = model.judge(res, plog, rc=case.get("rc"))
     part.counters.update(cnt)
     if mb:
         mcnt = model.judge_multi_blocker(res, plog, mb, [w for _, w in plog.reply_writes], res.get("peer_written_us"))
@@ -700,6 +775,12 @@ def _worker(args):
     step = max(1, len(cases) // n_mb)
     for j in range(n_mb):
         cases.insert(min(len(cases), j * (step + 1) + step // 2), make_mb_case(rng_mb))
+    # reply-then-close cases, likewise on top and with their own stream
+    rng_rc = gen.rng_for(seed, PROP, "rc", shard)
+    n_rc = max(1, count // 9)
+    step = max(1, len(cases) // n_rc)
+    for j in range(n_rc):
+        cases.insert(min(len(cases), j * (step + 1) + step // 3), make_rc_case(rng_rc))
     rundir = tempfile.mkdtemp(prefix="verif-c17-")
     ses = Session(exe, rundir, flavor)
     try:
@@ -707,6 +788,10 @@ def _worker(args):
             part.evaluations += 1
             part.count("scripts:" + flavor)
             part.count("threads:%d" % case["nthreads"])
+            if case.get("rc"):
+                part.count("rc-cases")
+                part.count("rc-cases:mixed" if case["rc"]["unanswered"] else "rc-cases:all-answered")
+                part.count("rc-cases:first-read-" + {"R": "read", "P": "pump", "B": "block"}[case["rc"]["first_read"]])
             if case.get("mb"):
                 part.count("mb-cases")
                 part.count("mb-blockers", case["mb"]["k"])
@@ -815,6 +900,17 @@ def run(tier, seed, replay=None, scale=1.0):
     r.require("swrb", 100 if full else 1)
     # several blocking waits answered by one write(): cases run, with / without a timeout, and those where at least two
     # threads were verifiably inside their blocking wait when the peer's single write() happened
+    # the peer replies and closes at once, the client reads afterwards: cases run (all answered / mixed), those where the
+    # harness verified hangup + unread bytes pending before its first read, answered calls and how they were observed
+    r.require("rc-cases", 60 if full else 1)
+    r.require("rc-cases:all-answered", 30 if full else 1)
+    r.require("rc-cases:mixed", 8 if full else 1)
+    r.require("rc-precondition-verified", 60 if full else 1)
+    r.require("rc-answered-completed-with-reply", 100 if full else 1)
+    r.require("rc-completed-via:dispatch", 80 if full else 1)
+    r.require("rc-observed-by:notify", 40 if full else 1)
+    r.require("rc-observed-by:poll", 20 if full else 1)
+    r.require("rc-observed-by:steal", 40 if full else 1)
     r.require("mb-cases", 60 if full else 1)
     r.require("mb-cases:infinite", 25 if full else 1)
     r.require("mb-cases:finite", 15 if full else 1)
